@@ -700,3 +700,12 @@ def r15_5(ctx):
                         elif tx["k"] == "assert":
                             ctx.ob("main:err-arm:assert", False, b.where(b.term_loc(x)), "a compiler-inserted check (%s) in the error arm" % tx["assert_kind"])
         ctx.ob("main:err-arm-prints-and-returns", okerr, b.where(b.term_loc(bb)), "on Err the message is printed and main returns normally")
+        # the FEN text itself is obtained without panicking: clap 2's `ArgMatches::value_of` panics on an
+        # argument that is not valid UTF-8 ("arbitrary bytes" reach the front end through argv)
+        from wa.expr import data_slice
+        arg = ex.call_args(bb)[0]
+        src = [x for x in data_slice(ex, strip_refs(arg)) if x[0] == "call" and x[1].startswith("clap::ArgMatches")]
+        panicky = [x for x in src if x[1].split("::")[-1] in ("value_of", "values_of")]
+        ctx.ob("main:fen-argument-accessor-total", not panicky, b.where(b.term_loc(bb)),
+               "the --fen argument is read with %s%s" % (sorted({x[1].split("::")[-1] for x in src}) or "no clap accessor",
+                                                       "" if not panicky else ": `value_of` panics on an argument that is not valid UTF-8 instead of letting from_fen reject it (value_of_lossy / value_of_os do not)"))
